@@ -33,8 +33,6 @@ FILE_MUTATION_EXACT = {
     "std::fs::soft_link",
     "std::os::unix::fs::symlink",
     "std::fs::set_permissions",
-    "std::fs::create_dir",
-    "std::fs::create_dir_all",
     "std::os::unix::fs::FileExt::write_at",
     "std::os::unix::fs::FileExt::write_all_at",
     "memmap2::MmapOptions::map_mut",
@@ -69,6 +67,18 @@ def w1_file_mutation_api(ctx):
     prog = ctx.prog
     bodies = shipped_bodies(prog)
     n_calls = 0
+    # binaries (thorough tier): nothing in them may touch files except through the library
+    for tname, bp in ctx.all_programs():
+        if tname == "lib":
+            continue
+        for b in shipped_bodies(bp):
+            for bi, t in b.calls():
+                if bi not in b.live_blocks():
+                    continue
+                n_calls += 1
+                cn, rn = callee_names(t)
+                if _is_mutation(cn) or cn == "std::io::Seek::seek" or cn == "memmap2::MmapOptions::map":
+                    r.bad("%s:%s" % (tname, fam_name(b)), "call %s" % cn, where(b, bi), "file-mutating API in a binary, outside the storage layer")
     for b in bodies:
         for bi, t in b.calls():
             if bi not in b.live_blocks():
@@ -230,8 +240,6 @@ def w4_no_abort(ctx):
     r = RuleResult("W4", "no library body calls process::exit/abort (or an equivalent), and no build profile sets panic=abort: a panic in a connection task ends that task, not the process", floor=2)
     n = 0
     for tname, prog in ctx.all_programs():
-        if tname not in ("lib",):
-            continue
         for b in shipped_bodies(prog):
             for bi, t in b.calls():
                 n += 1
